@@ -163,6 +163,11 @@ def judge(ctx, d, second, report=True):
             other = second()
             values = {(c["call"], c["consumer"], c["nth"]): c["value"] for c in other["calls"]}
         for c in nonlit:
+            if c["consumer"] == "srp_a" and str(c["value"]).startswith("SMALL="):
+                vio("ephemeral-of-a-few-bits", c, "the SRP ephemeral is a = %s: A = g^a mod p for an exponent below 2^16, whatever the system "
+                    "source delivered (%d bytes were read during the call)" % (c["value"][6:], sum(n for o, n in B)),
+                    {"expected": "a = the 256 bytes read from the system source during the call", "got": "a = " + c["value"][6:]})
+                continue
             if not B:
                 vio("not-from-stream", c, "the value (%s...) is not a slice of the bytes crypto/rand.Reader served and the source was not read "
                     "during the call: it comes from elsewhere (math/rand, the clock, constant or older bytes)" % c["value"][:40],
